@@ -211,7 +211,8 @@ class GraphGen:
             return self.data.Recording(
                 uuid=self.uid(), path=path, duration=r.choice([1.0, 10.0, 0.123, 3600.5]), channels=r.choice([1, 2, 4]),
                 samplerate=r.choice([8000, 22050, 44100, 48000, 192000, 384000]), time_expansion=te,
-                hash=r.choice([f"{r.getrandbits(128):032x}", ""]) if self.opt() else None,
+                # (byte-identical copies of one file in two folders have the same checksum: a hash seen before comes back)
+                hash=r.choice([f"{r.getrandbits(128):032x}", "", self._last_hash()]) if self.opt() else None,
                 date=datetime.date(r.randint(1999, 2030), r.randint(1, 12), r.randint(1, 28)) if self.opt() else None,
                 time=datetime.time(r.randint(0, 23), r.randint(0, 59), r.randint(0, 59), r.choice([0, r.randint(0, 999999)])) if self.opt() else None,
                 latitude=r.choice([0.0, -0.0, r.uniform(-90, 90), 5e-324, -1e-300]) if self.opt() else None,
@@ -239,6 +240,10 @@ class GraphGen:
             self.clips.append(c)
             return c
         return self.pick(self.clips, make)
+
+    def _last_hash(self):
+        hs = [x.hash for x in self.recordings if getattr(x, "hash", None)]
+        return self.rng.choice(hs) if hs else f"{self.rng.getrandbits(128):032x}"
 
     def geometry(self):
         if self.opt(0.12):
